@@ -617,6 +617,18 @@ def install(w):
     def _find_ident(ex, st, args):
         return find_like("find", ex, st, args[0], [exp.Identifier], True)
 
+    @sf("find_explode")
+    def _find_explode(ex, st, args):
+        return find_like("find", ex, st, args[0], [exp.Explode], True)
+
+    @sf("ancestor_select")
+    def _ancestor_select(ex, st, args):
+        """node.find_ancestor(exp.Select) (the same uninterpreted function the method model uses)"""
+        f = z3.Function("sg_find_ancestor_" + str(w.classes.cid(exp.Select)), I, I, V)
+        r = f(V.rid(args[0].t), treever(ex, st, args[0]))
+        st.assume(z3.Or(V.is_none(r), z3.And(V.is_r(r), w.classes.isa(CLS(V.rid(r)), exp.Select))))
+        return Val(r, Opt(exp.Select))
+
     @sf("find_tuple")
     def _find_tuple(ex, st, args):
         return find_like("find", ex, st, args[0], [exp.Tuple], True)
